@@ -353,29 +353,70 @@ def t_unix(it, st, args, fname):
 
 @I.reg('(time.Time).Unix')
 def t_time_unix(it, st, args, fname):
+    if is_ns(args[0]):
+        raise Unsupported('Unix() of a clock reading (division by 1e9)')
     return ret(st, time_parts(args[0])[0])
+
+
+class _NS:
+    """marker stored in the loc field of a modelled time.Time: `ext` holds total nanoseconds"""
+    def __repr__(self):
+        return 'NS'
+
+
+NS = _NS()
+
+
+def mk_time_ns(total):
+    t = E.ty('time.Time')
+    vals = []
+    for f in t['fields']:
+        if f['name'] == 'ext':
+            vals.append(total)
+        elif f['name'] == 'wall':
+            vals.append(0)
+        else:
+            vals.append(NS)
+    return tuple(vals)
+
+
+def is_ns(tv):
+    return any(v is NS for v in tv)
+
+
+def total_ns(tv):
+    s_, n_ = time_parts(tv)
+    if is_ns(tv):
+        return s_
+    return simp_i(add64(mul64(s_, 1000000000), n_))
 
 
 @I.reg('time.Now')
 def t_now(it, st, args, fname):
     from intrinsics import nd_bv
     last = st.heap.get(('CLOCK',), None)
-    sec = nd_bv(st, 'clock-sec', 64)
-    nsec = nd_bv(st, 'clock-nsec', 64)
-    st.pc.append(z3.And(sec >= 0, sec < (1 << 40), nsec >= 0, nsec < 1000000000))
+    if it.ctx.concrete_clock:
+        # deterministic clock: every reading is 1 ms after the previous one plus the time slept
+        slept = st.heap.get(('SLEPT',), 0)
+        now = (1700000000 * 1000000000) if last is None else simp_i(add64(add64(last, slept), 1000000))
+        st.heap[('SLEPT',)] = 0
+        st.heap[('CLOCK',)] = now
+        it.ctx.assumptions.add('concrete clock: a reading of time.Now is 1 ms after the previous one plus the time slept in between')
+        return ret(st, mk_time_ns(now))
+    now = nd_bv(st, 'clock-ns', 64)
+    st.pc.append(z3.And(now >= 0, now < (1 << 61)))
     if last is not None:
-        ls, ln = last
-        st.pc.append(z3.Or(sec > bv(ls, 64), z3.And(sec == bv(ls, 64), nsec >= bv(ln, 64))))
-    st.heap[('CLOCK',)] = (sec, nsec)
-    it.ctx.assumptions.add('time.Now returns an arbitrary non-decreasing instant (seconds < 2^40)')
-    return ret(st, mk_time(sec, nsec))
+        slept = st.heap.get(('SLEPT',), 0)
+        st.pc.append(now >= bv(last, 64) + bv(slept, 64))
+    st.heap[('SLEPT',)] = 0
+    st.heap[('CLOCK',)] = now
+    it.ctx.assumptions.add('time.Now returns an arbitrary non-decreasing instant (nanoseconds < 2^61); time.Sleep(d) makes the next reading at least d later')
+    return ret(st, mk_time_ns(now))
 
 
 def dur(a, b):
     """a - b as nanoseconds (Duration)"""
-    s1, n1 = time_parts(a)
-    s2, n2 = time_parts(b)
-    return simp_i(add64(mul64(sub64(s1, s2), 1000000000), sub64(n1, n2)))
+    return simp_i(sub64(total_ns(a), total_ns(b)))
 
 
 def mul64(a, c):
@@ -397,15 +438,14 @@ def t_since(it, st, args, fname):
 
 @I.reg('time.Sleep')
 def t_sleep(it, st, args, fname):
-    # the clock advances by at least d: enforced on the next reading through the stored last instant
-    last = st.heap.get(('CLOCK',), None)
+    # the clock advances by at least d before the next reading
     d = args[0]
-    if last is not None:
-        ls, ln = last
-        # advance the lower bound by whole seconds only when d is concrete; otherwise keep monotonicity
-        if not is_sym(d):
-            tot = tosigned(d, 64)
-            st.heap[('CLOCK',)] = (simp_i(add64(ls, tot // 1000000000)), ln)
+    cur = st.heap.get(('SLEPT',), 0)
+    if is_sym(d):
+        st.pc.append(z3.And(d >= 0, d < (1 << 50)))
+    elif tosigned(d, 64) < 0:
+        d = 0
+    st.heap[('SLEPT',)] = simp_i(add64(cur, d))
     return ret(st)
 
 
